@@ -227,6 +227,171 @@ func (a *c18Args) verdict(ga, m1 []byte) string {
 	return " B=" + a.sameB() + " srv=" + acc
 }
 
+// ---- the caller's memory and the rest of the account record --------------------------------------
+//
+// The property speaks of values ("for every password, pair of salts, group parameters, server value");
+// where the caller keeps them is not part of it. A TL decoder gives every field its own exactly-sized
+// array, but a caller may as well hold the whole record in one buffer and hand out sub-slices — then
+// every field has spare capacity and the bytes behind it are the next field. Code that appends to, or
+// writes through, one of its arguments is right for the first caller and wrong for the second. So the
+// byte-string inputs of an exchange are placed in memory in a layout that is a function of the
+// operation line (c18Layout: own exact arrays / own arrays with spare room / one backing array in
+// every order, adjacent or with gaps), the same on every run and replay, and after the call all of that
+// memory — fields, gaps, spare room — must be what it was.
+//
+// Likewise the public wrapper is given an AccountPassword whose OTHER fields (has_recovery, hint,
+// email_unconfirmed_pattern, new_algo, secure_random, …) are populated as a function of the operation
+// line: the answer must depend on the password, current_algo, srp_B and srp_id only.
+
+type c18Mem struct {
+	arrays, snaps [][]byte
+	desc          string
+}
+
+func (m *c18Mem) own(b []byte) {
+	m.arrays = append(m.arrays, b)
+	m.snaps = append(m.snaps, append([]byte{}, b...))
+}
+
+func (m *c18Mem) changed() bool {
+	for i, a := range m.arrays {
+		if !bytes.Equal(a, m.snaps[i]) {
+			return true
+		}
+	}
+	return false
+}
+
+func c18OpHash(op []string) uint32 { return fnv32([]byte(strings.Join(op, " "))) }
+
+// c18Layout places copies of the named fields in fresh caller memory and points the fields at them.
+func c18Layout(h uint32, names []string, fields []*[]byte) *c18Mem {
+	r := NewRand(uint64(h) ^ 0xc18a)
+	m := &c18Mem{}
+	guard := func(n int) []byte { return bytes.Repeat([]byte{0xEE}, n) }
+	switch kind := h % 6; kind {
+	case 0:
+		for _, f := range fields {
+			b := append(make([]byte, 0, len(*f)), *f...)
+			*f = b
+			m.own(b)
+		}
+		m.desc = "every field in its own exactly-sized array"
+	case 1:
+		for _, f := range fields {
+			n := len(*f)
+			arr := append(append(make([]byte, 0, n+96), *f...), guard(96)...)
+			*f = arr[:n]
+			m.own(arr)
+		}
+		m.desc = "every field in its own array with 96 bytes of spare capacity behind it"
+	default:
+		order := make([]int, len(fields))
+		for i := range order {
+			order[i] = i
+		}
+		for i := len(order) - 1; i > 0; i-- {
+			j := r.Intn(i + 1)
+			order[i], order[j] = order[j], order[i]
+		}
+		gap := 0
+		if kind == 5 {
+			gap = 1 + r.Intn(48)
+		}
+		var arr []byte
+		offs := make([]int, len(fields))
+		for _, i := range order {
+			offs[i] = len(arr)
+			arr = append(arr, *fields[i]...)
+			arr = append(arr, guard(gap)...)
+		}
+		arr = append(arr, guard(64)...)
+		arr = append(make([]byte, 0, len(arr)), arr...)
+		var parts []string
+		for _, i := range order {
+			*fields[i] = arr[offs[i] : offs[i]+len(*fields[i])]
+			parts = append(parts, fmt.Sprintf("%s[%d]", names[i], len(*fields[i])))
+		}
+		m.own(arr)
+		m.desc = fmt.Sprintf("all fields sub-slices of ONE backing array, in the order %s, %d bytes between neighbours, 64 spare bytes at the end", strings.Join(parts, "|"), gap)
+	}
+	return m
+}
+
+// c18Record fills the fields of the account record that the SRP answer does not depend on.
+func c18Record(h uint32, ap *telegram.AccountPassword) string {
+	if (h>>8)%4 == 0 {
+		return "other fields of the record: has_password only"
+	}
+	r := NewRand(uint64(h) ^ 0xacc0)
+	var d []string
+	if ap.HasRecovery = r.Bool(); ap.HasRecovery {
+		d = append(d, "has_recovery")
+	}
+	if ap.HasSecureValues = r.Bool(); ap.HasSecureValues {
+		d = append(d, "has_secure_values")
+	}
+	if ap.HasPassword = r.Intn(4) != 0; !ap.HasPassword {
+		d = append(d, "has_password=false")
+	}
+	if r.Bool() {
+		ap.Hint = []string{"hint", "пароль как всегда", "x"}[r.Intn(3)]
+		d = append(d, "hint")
+	}
+	if r.Bool() {
+		ap.EmailUnconfirmedPattern = []string{"j***@e***.com", "*@*", "a"}[r.Intn(3)]
+		d = append(d, "email_unconfirmed_pattern")
+	}
+	switch r.Intn(3) {
+	case 1:
+		ap.NewAlgo = &telegram.PasswordKdfAlgoSHA256SHA256PBKDF2HMACSHA512iter100000SHA256ModPow{
+			Salt1: r.Bytes(8), Salt2: r.Bytes(16), G: 3, P: r.Bytes(256)}
+		d = append(d, "new_algo=modpow")
+	case 2:
+		ap.NewAlgo = &telegram.PasswordKdfAlgoUnknown{}
+		d = append(d, "new_algo=unknown")
+	}
+	switch r.Intn(4) {
+	case 1:
+		ap.NewSecureAlgo = &telegram.SecurePasswordKdfAlgoPbkdf2Hmacsha512Iter100000{Salt: r.Bytes(8)}
+		d = append(d, "new_secure_algo=pbkdf2")
+	case 2:
+		ap.NewSecureAlgo = &telegram.SecurePasswordKdfAlgoSHA512{Salt: r.Bytes(8)}
+		d = append(d, "new_secure_algo=sha512")
+	case 3:
+		ap.NewSecureAlgo = &telegram.SecurePasswordKdfAlgoUnknown{}
+		d = append(d, "new_secure_algo=unknown")
+	}
+	if r.Bool() {
+		ap.SecureRandom = r.Bytes(256)
+		d = append(d, "secure_random")
+	}
+	if len(d) == 0 {
+		return "other fields of the record: has_password only"
+	}
+	return "other fields of the record set: " + strings.Join(d, ", ")
+}
+
+// c18Setting: the layout (and, for c18.pub, the record) of one operation, in words — for the oracle's report
+func c18Setting(op []string) string {
+	a, ok := c18Parse(op)
+	if !ok {
+		return ""
+	}
+	h := c18OpHash(op)
+	if op[0] == "c18.srp" {
+		return c18Layout(h, c18SrpNames, []*[]byte{&a.s1, &a.s2, &a.pB, &a.srpB, &a.random}).desc
+	}
+	d := c18Record(h, &telegram.AccountPassword{})
+	if a.kind == "mp" {
+		d = c18Layout(h, c18PubNames, []*[]byte{&a.s1, &a.s2, &a.pB, &a.srpB}).desc + "; " + d
+	}
+	return d
+}
+
+var c18SrpNames = []string{"salt1", "salt2", "p", "srp_B", "random"}
+var c18PubNames = []string{"salt1", "salt2", "p", "srp_B"}
+
 // ---- executor: the real code ---------------------------------------------------------------------
 
 // c18Split: the exchanges of a c18.seq line
@@ -244,7 +409,22 @@ func c18Split(op []string) [][]string {
 	return append(out, cur)
 }
 
+// c18CurMem: the caller memory of the exchange being executed (set once the real code has returned)
+var c18CurMem *c18Mem
+
+const c18Changed = "caller-buffer-changed; the call answered: "
+
 func c18Exec(op []string) string {
+	c18CurMem = nil
+	out := c18ExecOne(op)
+	if c18CurMem != nil && c18CurMem.changed() && (len(op) == 0 || op[0] != "c18.seq") {
+		c18CurMem = nil
+		return c18Changed + out
+	}
+	return out
+}
+
+func c18ExecOne(op []string) string {
 	if len(op) > 0 && op[0] == "c18.seq" {
 		var outs []string
 		for _, sub := range c18Split(op) {
@@ -263,8 +443,13 @@ func c18Exec(op []string) string {
 	if !ok {
 		return "bad-op"
 	}
+	h := c18OpHash(op)
 	if op[0] == "c18.srp" {
-		ga, m1, err := telegram.VerifSRP(string(a.pw), a.srpB, a.s1, a.s2, int32(a.g), a.pB, a.random)
+		// the real code gets its own placement of the inputs (m); a keeps the values for the server
+		s1, s2, pB, srpB, random := a.s1, a.s2, a.pB, a.srpB, a.random
+		m := c18Layout(h, c18SrpNames, []*[]byte{&s1, &s2, &pB, &srpB, &random})
+		ga, m1, err := telegram.VerifSRP(string(a.pw), srpB, s1, s2, int32(a.g), pB, random)
+		c18CurMem = m
 		switch {
 		case err != nil:
 			e := c18Err(err)
@@ -285,17 +470,24 @@ func c18Exec(op []string) string {
 		return out
 	}
 	// c18.pub
-	ap := &telegram.AccountPassword{HasPassword: true, SRPB: a.srpB, SRPID: a.srpID}
+	s1, s2, pB, srpB := a.s1, a.s2, a.pB, a.srpB
+	m := &c18Mem{}
+	if a.kind == "mp" {
+		m = c18Layout(h, c18PubNames, []*[]byte{&s1, &s2, &pB, &srpB})
+	}
+	ap := &telegram.AccountPassword{HasPassword: true, SRPB: srpB, SRPID: a.srpID}
+	c18Record(h, ap)
 	switch a.kind {
 	case "mp":
 		ap.CurrentAlgo = &telegram.PasswordKdfAlgoSHA256SHA256PBKDF2HMACSHA512iter100000SHA256ModPow{
-			Salt1: a.s1, Salt2: a.s2, G: int32(a.g), P: a.pB}
+			Salt1: s1, Salt2: s2, G: int32(a.g), P: pB}
 	case "other":
 		ap.CurrentAlgo = &telegram.PasswordKdfAlgoUnknown{}
 	case "nil":
 		ap.CurrentAlgo = nil
 	}
 	res, err := telegram.GetInputCheckPassword(string(a.pw), ap)
+	c18CurMem = m
 	if err != nil {
 		e := c18Err(err)
 		if e == "err:invalidB" || e == "err:invalidG" || e == "err:other" {
@@ -321,6 +513,16 @@ func c18Exec(op []string) string {
 // ---- judge: the property on the real code's result, by the harness's own server -------------------
 
 func c18Judge(op []string, out string) string {
+	why := c18Judge1(op, out)
+	if why != "" && len(op) > 0 && op[0] != "c18.seq" {
+		if d := c18Setting(op); d != "" {
+			why += " [caller memory: " + d + "]"
+		}
+	}
+	return why
+}
+
+func c18Judge1(op []string, out string) string {
 	if len(op) > 0 && op[0] == "c18.seq" {
 		subs, outs := c18Split(op), strings.Split(out, " ; ")
 		if out == "bad-op" {
@@ -352,6 +554,14 @@ func c18Judge(op []string, out string) string {
 	}
 	if strings.HasPrefix(out, "panic:") {
 		return "the SRP computation panicked: " + out
+	}
+	if strings.HasPrefix(out, c18Changed) {
+		why := "the caller's memory that holds the inputs (fields, the room between and behind them) was written to by the call"
+		rest := out[len(c18Changed):]
+		if w := c18Judge1(op, rest); w != "" {
+			why += "; and its answer (" + strings.SplitN(rest, " ", 2)[0] + " …) is wrong: " + w
+		}
+		return why
 	}
 	pub := op[0] == "c18.pub"
 	if pub && a.kind != "mp" {
